@@ -23,7 +23,7 @@ def fmtModel (noPre : Bool) (s0 : St) : Res Out → String
 
 def fmtSpec : Res Out → String
   | .ok r s => fmtOk r s
-  | .assert _ _ => "assert"
+  | .assert k _ => s!"assert({siteOf k})"     -- the site of the first violated documented clause
   | .oob _ => "unchecked"
 
 def sizeArg (l : Line) (k : String) : Option Nat :=
@@ -92,7 +92,20 @@ def parseOp (l : Line) : Option Op :=
   | "vw.substr" => some (.vwSubstr a b) | "vw.copy" => some (.vwCopy a b)
   | "sp.at" => some (.spAt a) | "sp.front" => some .spFront | "sp.back" => some .spBack
   | "sp.first" => some (.spFirst a) | "sp.last" => some (.spLast a) | "sp.subspan" => some (.spSubspan a b)
+  | "sp.first_t" => some (.spFirstT a) | "sp.last_t" => some (.spLastT a) | "sp.subspan_t" => some (.spSubspanT a b)
+  | "sp.ctor_ext" => (sizeArg l "ext").map fun e => .spCtorExt k e
   | "ar.at" => (sizeArg l "i").map fun i => .arAt k i
+  | "ar.front" => some (.arFront k) | "ar.back" => some (.arBack k)
+  | "str.insert" => some (.strInsert k a xs)
+  | "str.insert_fill" => some (.strInsertFill a b ((l.int? "v").getD 120))
+  | "str.erase_idx" => some (.strEraseIdx a b)
+  | "linalg" => match l.str? "fn" with
+    | some fn => some (.nullChecks (SC.linalgChecks fn ((sizeArg l "nx").getD 0) ((sizeArg l "ny").getD 0) ((sizeArg l "nz").getD 0)
+        ((sizeArg l "r").getD 0) ((sizeArg l "c").getD 0)))
+    | none => none
+  | "to_string" => match l.int? "x", l.nat? "cap" with
+    | some x, some cap => some (.nullChecks (SC.toStringChecks cap x))
+    | _, _ => none
   | "str.ctor_ptr" => some (.strCtorPtr xs a)
   | "str.ctor_fill" => some (.strCtorFill a ((l.int? "v").getD 120))
   | "str.op_assign" => some (.strOpAssign xs)
@@ -110,7 +123,7 @@ def parseOp (l : Line) : Option Op :=
   | "bs.op" => match l.nat? "w", sizeArg l "pos" with | some w, some q => some (.bs w q ((l.int? "v").getD 1)) | _, _ => none
   | "bs.ctor" => match sizeArg l "pos", sizeArg l "n" with | some q, some n => some (.bsCtor q n 5) | _, _ => none
   | "bit" => match l.nat? "which", l.nat? "w", sizeArg l "pos" with | some wh, some w, some q => some (.bit wh w q) | _, _, _ => none
-  | "div_sat" => (l.int? "y").map .divSat
+  | "div_sat" => match l.int? "x", l.int? "y" with | some x, some y => some (.divSat x y) | _, _ => none
   | "day" => (l.nat? "d").map .dayCtor
   | "month" => (l.nat? "d").map .monthCtor
   | "stride" => match l.str? "l", sizeArg l "r" with | some lay, some r => some (.stride lay r) | _, _ => none
@@ -124,7 +137,8 @@ def initSt (l : Line) : St :=
   let e := (l.list? "e").getD []
   let fam := (l.op.splitOn ".").headD ""
   let cap :=
-    if fam == "sv" || fam == "iv" || fam == "str" then (l.nat? "cap").getD 0
+    if fam == "sv" || fam == "iv" || fam == "str" || fam == "ar" then (l.nat? "cap").getD 0
+    else if l.op == "linalg" || l.op == "to_string" then 0
     else if l.op == "set.ctor" then 3
     else if l.op == "day" || l.op == "month" then 1
     else e.length
